@@ -24,6 +24,7 @@ stays true is property C08).
 import ChaiVerif.Model.Chai.Opt
 import ChaiVerif.Lemmas.ChaiShape
 import ChaiVerif.Lemmas.ChaiXOptMain
+import ChaiVerif.Lemmas.ChaiRunWp
 import ChaiVerif.Props.C08
 namespace ChaiVerif.C02
 open ChaiVerif.Chai
@@ -413,6 +414,51 @@ theorem keepersC_is_keepers : ∀ (xs : List Node), (∀ x ∈ xs, x ≠ .noop) 
       unfold keepersC keepers
       have : isDead x = isConstNode x := by cases x <;> first | rfl | exact absurd rfl hx
       rw [this, hr]
+
+/-! ### Unused_Return: the flag is unobservable -/
+
+/-- **`Unused_Return` is unobservable, whole programs.**  Set the flag on EVERY call of the program and of every function body
+    (`allUnused`; the optimizer sets it on some) and even replace the saved call parameters of the starting state by anything of
+    the same length: every evaluation gives the same outcome, and the same state except for the contents of `call_params` —
+    which nothing ever reads (eighth induction over the evaluator, Lemmas/ChaiRunWp). -/
+theorem unused_return_unobservable (ρ : List FunDef) (f : Nat) (j : Job) (s : St) :
+    (run (ρ.map allUnusedFun) f (allUnusedJob j) s).1 = (run ρ f j s).1 ∧
+    ∃ q, q.length = (run ρ f j s).2.params.length ∧ (run (ρ.map allUnusedFun) f (allUnusedJob j) s).2 = (run ρ f j s).2.wp q := by
+  have := run_wp ρ f j s s.params rfl
+  simpa [Same] using this
+
+/-- hence any two assignments of the flag are equivalent: programs that differ only in `Unused_Return` flags have the same outcome
+    and the same final state up to the contents of the saved call parameters -/
+theorem flag_assignments_equivalent (ρ₁ ρ₂ : List FunDef) (j₁ j₂ : Job) (f : Nat) (s : St)
+    (hρ : ρ₁.map allUnusedFun = ρ₂.map allUnusedFun) (hj : allUnusedJob j₁ = allUnusedJob j₂) :
+    (run ρ₁ f j₁ s).1 = (run ρ₂ f j₂ s).1 ∧
+    ∃ q, q.length = (run ρ₂ f j₂ s).2.params.length ∧ (run ρ₁ f j₁ s).2 = (run ρ₂ f j₂ s).2.wp q := by
+  obtain ⟨a1, q1, l1, b1⟩ := unused_return_unobservable ρ₁ f j₁ s
+  obtain ⟨a2, q2, l2, b2⟩ := unused_return_unobservable ρ₂ f j₂ s
+  rw [hρ, hj] at a1 b1
+  refine ⟨a1.symm.trans a2, (run ρ₁ f j₁ s).2.params, ?_, ?_⟩
+  · have h := congrArg (fun t => t.params.length) (b1.symm.trans b2)
+    simp only [wp_params] at h
+    omega
+  · have h : (run ρ₁ f j₁ s).2.wp q1 = (run ρ₂ f j₂ s).2.wp q2 := b1.symm.trans b2
+    have h' := congrArg (fun t => t.wp (run ρ₁ f j₁ s).2.params) h
+    simpa using h'
+
+/-- the pass itself only flips such flags (so it falls under the two theorems above) -/
+theorem unused_return_pass_only_flags (n : Node) : allUnused (unusedReturn n) = allUnused n := allUnused_unusedReturn n
+
+/-- **exact passes + Unused_Return on whole programs**: apply Partial_Fold, If, Dead_Code (constants) everywhere and then set the
+    Unused_Return flag everywhere: whenever the original evaluation finishes, the optimized one finishes with the same fuel, the same
+    outcome and the same state up to the contents of the saved call parameters -/
+theorem exact_passes_and_unused_return (ρ : List FunDef) (L : Lits) (f : Nat) (j : Job) (s : St)
+    (hl : Lit L.length L s) (hdone : (run ρ f j s).1 ≠ .oof) :
+    (run ((ρ.map (xoptFun L)).map allUnusedFun) f (allUnusedJob (xoptJob L j)) s).1 = (run ρ f j s).1 ∧
+    ∃ q, q.length = (run ρ f j s).2.params.length ∧
+      (run ((ρ.map (xoptFun L)).map allUnusedFun) f (allUnusedJob (xoptJob L j)) s).2 = (run ρ f j s).2.wp q := by
+  have hx := exact_passes_preserve_evaluation ρ L f j s hl trivial hdone
+  have hu := unused_return_unobservable (ρ.map (xoptFun L)) f (xoptJob L j) s
+  rw [hx] at hu
+  exact hu
 
 /-- non-vacuity: the passes do rewrite — `if (true) { 1 + x } else { 2 }; 5; x * 3` inside a block loses the conditional, folds
     the right constant and drops the dead constant -/
